@@ -223,7 +223,10 @@ def strip_comments(s):
 
 def field_sources(expr, bound):
     """identifiers of source fields (`self.f` or pattern variables) mentioned in expr"""
-    srcs = re.findall(r"self\s*\.\s*(\w+)", expr)
+    srcs = []
+    for f in re.findall(r"self\s*\.\s*(\w+)", expr):
+        if f not in srcs:           # a field may be read more than once (e.g. its capacity and its elements)
+            srcs.append(f)
     for b in bound:
         if re.search(r"(?<![\w.])%s(?![\w(])" % re.escape(b), expr) and b not in srcs:
             srcs.append(b)
